@@ -25,7 +25,7 @@ from e1 import E1
 FILES = ['src/encoding/plain.c', 'src/encoding/rle.c', 'src/encoding/delta.c', 'src/encoding/delta_length.c',
          'src/encoding/delta_strings.c', 'src/encoding/byte_stream_split.c', 'src/encoding/dictionary.c',
          'src/core/bitpack.c', 'src/core/buffer.c', 'src/core/endian.h', 'src/simd/dispatch.c']
-BUDGET = {'quick': 600, 'thorough': 2700}
+BUDGET = {'quick': 900, 'thorough': 2700}
 
 SAT = ('minisat', 'kissat', 'cvc5')
 ALL = ('cvc5', 'z3', 'minisat', 'kissat')
